@@ -229,6 +229,12 @@ def mutate(rng, cfg):
     kind = rng.choice(['drop', 'set', 'set', 'set', 'addkey', 'dangle', 'wrap', 'null', 'empty', 'edge', 'edge'])
     if kind == 'edge':
         maps = detail_maps(cfg)
+        if maps and rng.random() < 0.2:
+            # an env variable without a value (null), on any level
+            m, _wv = rng.choice(maps)
+            env = m.get('env') if isinstance(m.get('env'), dict) else {}
+            m['env'] = dict(env, NOVALUE=None)
+            return 'edge:env:NoneType', cfg
         if maps:
             m, _wv = rng.choice(maps)
             k = rng.choice(EDGE_KEYS)
@@ -433,6 +439,14 @@ experiments:
                             'executors:\n  E1: {executable: x}\nexperiments:\n  X: {suites: [S1], executions: [E1]}\n'),
     ('env-tilde-and-quote', 'benchmark_suites:\n  S1: {gauge_adapter: Time, command: c, benchmarks: [{b: {env: {P: "~/it\'s", Q: "\\""}}}]}\n'
                             'executors:\n  E1: {executable: x}\nexperiments:\n  X: {suites: [S1], executions: [E1]}\n'),
+    ('env-null-value-runs', 'runs:\n  env: {X: ~, Y: y}\nbenchmark_suites:\n  S1: {gauge_adapter: Time, command: c, benchmarks: [b]}\n'
+                            'executors:\n  E1: {executable: x}\nexperiments:\n  X: {suites: [S1], executions: [E1]}\n'),
+    ('env-null-value-every-level',
+     'runs:\n  env: {R: null}\nmachines:\n  m1: {env: {M: }}\nbenchmark_suites:\n  S1:\n    gauge_adapter: Time\n    command: c\n    env: {S: ~}\n'
+     '    benchmarks: [{b: {env: {B: ~}}}]\nexecutors:\n  E1: {executable: x, env: {E: ~}}\n'
+     'experiments:\n  X: {suites: [S1], env: {X: ~}, executions: [{E1: {env: {D: ~}}}]}\n'),
+    ('env-null-value-benchmark', 'benchmark_suites:\n  S1: {gauge_adapter: Time, command: c, benchmarks: [{b: {env: {B: }}}]}\n'
+                                 'executors:\n  E1: {executable: x}\nexperiments:\n  X: {suites: [S1], executions: [E1]}\n'),
     ('empty-key', 'benchmark_suites:\n  "": {gauge_adapter: Time, command: c, benchmarks: [b]}\n'),
 ]
 
@@ -777,7 +791,7 @@ def run(ck):
     cases = load_corpus()
     ck.count('corpus', len(cases))
     cases += [(k, t, [], k.startswith(('null-details-', 'null-retries-', 'quoted-invocations', 'anchor-merge', 'profile-ok', 'env-lone', 'env-tilde'))) for (k, t) in ANCHOR_TEXTS]
-    cases += [(k + '/-p', t, ['-p'], k.startswith(('env-lone', 'env-tilde'))) for (k, t) in ANCHOR_TEXTS if k.startswith(('command-', 'quoted-', 'anchor-merge', 'env-lone', 'env-tilde'))]
+    cases += [(k + '/-p', t, ['-p'], k.startswith(('env-lone', 'env-tilde'))) for (k, t) in ANCHOR_TEXTS if k.startswith(('command-', 'quoted-', 'anchor-merge', 'env-lone', 'env-tilde', 'env-null-value'))]
     n = 180 if quick else 3000
     for _ in range(n):
         cfg = gen_valid(ck.rng)
